@@ -424,3 +424,34 @@ package bigslice
 //@   ensures  upstream-error-returned: implies(err != nil, a == nil && err == f.reader.lastErr && err != sliceio.EOF)
 //@   modifies accRows, userCalls, lastCallRvs, ColMem, colClock, SReader.nreads, SReader.lastN, SReader.lastErr, rowsSupplied, sawRowsWithEOF
 //@   loop 1 invariant accRows - old(accRows) == rowsSupplied - old(rowsSupplied) && accum != nil && f.reader == old(f.reader)
+
+// ---- C01: Fold's accumulators emit every accumulated key exactly once ----
+
+// Read hands out at most as many keys as fit, removes each key it hands out from the accumulator (so no key is emitted
+// twice) and reports end-of-stream exactly when the accumulator has been emptied.
+//@ func bigslice.(*intAccumulator).Read (keys, values) (n, err)
+//@   requires s != nil && s.state != nil && rvLen(keys) >= 0 && rvLen(values) >= rvLen(keys)
+//@   may_panic
+//@   ensures  count: 0 <= n && n <= rvLen(keys) && len(s.state) == old(len(s.state)) - n
+//@   ensures  end-exactly-when-emptied: (err == sliceio.EOF) == (len(s.state) == 0) && (err == nil || err == sliceio.EOF)
+//@   ensures  only-removals: forall(k, int, implies(has(s.state, k), old(has(s.state, k))))
+//@   modifies s.state[:], ColMem
+//@   loop 1 invariant 0 <= n && n <= max && len(s.state) == old(len(s.state)) - n && forall(k, int, implies(has(s.state, k), old(has(s.state, k)))) && s.state == old(s.state)
+
+//@ func bigslice.(*stringAccumulator).Read (keys, values) (n, err)
+//@   requires s != nil && s.state != nil && rvLen(keys) >= 0 && rvLen(values) >= rvLen(keys)
+//@   may_panic
+//@   ensures  count: 0 <= n && n <= rvLen(keys) && len(s.state) == old(len(s.state)) - n
+//@   ensures  end-exactly-when-emptied: (err == sliceio.EOF) == (len(s.state) == 0) && (err == nil || err == sliceio.EOF)
+//@   ensures  only-removals: forall(k, string, implies(has(s.state, k), old(has(s.state, k))))
+//@   modifies s.state[:], ColMem
+//@   loop 1 invariant 0 <= n && n <= max && len(s.state) == old(len(s.state)) - n && forall(k, string, implies(has(s.state, k), old(has(s.state, k)))) && s.state == old(s.state)
+
+//@ func bigslice.(*int64Accumulator).Read (keys, values) (n, err)
+//@   requires s != nil && s.state != nil && rvLen(keys) >= 0 && rvLen(values) >= rvLen(keys)
+//@   may_panic
+//@   ensures  count: 0 <= n && n <= rvLen(keys) && len(s.state) == old(len(s.state)) - n
+//@   ensures  end-exactly-when-emptied: (err == sliceio.EOF) == (len(s.state) == 0) && (err == nil || err == sliceio.EOF)
+//@   ensures  only-removals: forall(k, int64, implies(has(s.state, k), old(has(s.state, k))))
+//@   modifies s.state[:], ColMem
+//@   loop 1 invariant 0 <= n && n <= max && len(s.state) == old(len(s.state)) - n && forall(k, int64, implies(has(s.state, k), old(has(s.state, k)))) && s.state == old(s.state)
